@@ -714,6 +714,30 @@ class CCFG(CFG):
         return None
 
 
+def expr_guards(tu, n, stop=None):
+    """Literals established *inside the enclosing expression* for the
+    sub-expression n: right operands of && / || and the arms of ?: are only
+    evaluated under their left operand / condition."""
+    out = set()
+    child, cur = n, tu.parent.get(id(n))
+    while cur is not None and cur is not stop and kind(cur) not in (
+            "CompoundStmt", "FunctionDecl", "IfStmt", "WhileStmt", "ForStmt", "DoStmt", "SwitchStmt",
+            "ReturnStmt", "DeclStmt"):
+        k = kind(cur)
+        ks = kids(cur)
+        if k == "BinaryOperator" and cur.get("opcode") in ("&&", "||") and len(ks) == 2:
+            if any(x is child for x in walk(ks[1])) and not any(x is child for x in walk(ks[0])):
+                out |= cliterals(tu, ks[0], cur.get("opcode") == "&&")
+        elif k == "ConditionalOperator" and len(ks) == 3:
+            if any(x is child for x in walk(ks[1])):
+                out |= cliterals(tu, ks[0], True)
+            elif any(x is child for x in walk(ks[2])):
+                out |= cliterals(tu, ks[0], False)
+        child, cur = cur, tu.parent.get(id(cur))
+    # an IfStmt / loop condition: the guards inside the condition expression itself
+    return out
+
+
 def find_nodes(root, pred):
     return [n for n in walk(root) if pred(n)]
 
